@@ -52,10 +52,14 @@ def main():
     for it in items:
         name, _, args = it.partition(':')
         args = [int(x) for x in args.split(',') if x != '']
+        hp = pkgpath
+        if '@' in name:  # harness in another package: pkg/timednetconn@verifHarness_X
+            sub, name = name.split('@')
+            hp = M if sub == '.' else M + '/' + sub
         t0 = time.time()
         from gosym.engine import Stats
         E.stats = Stats()
-        E.explore(pkgpath + '.' + name, args, deadline=time.time() + float(os.environ.get('DBG_DEADLINE', '120')))
+        E.explore(hp + '.' + name, args, deadline=time.time() + float(os.environ.get('DBG_DEADLINE', '120')))
         st = E.stats
         print('%s%s paths=%d aborted=%d instr=%d oblig=%d discharged=%d triv=%d q=%d solver=%.2fs reach=%s wall=%.2fs pending=%d' % (
             name, args, st.paths, st.paths_aborted, st.instrs, st.obligations, st.discharged, st.trivial, st.queries, st.solver_s,
